@@ -43,7 +43,7 @@ func (r *StringLiteralReader) ReadStringLiteral() (models.Token, error) {
 		if ch == '\\' {
 			// Handle escape sequences
 			if err := r.handleEscapeSequence(&buf); err != nil {
-				return models.Token{}, errors.InvalidSyntaxError(
+				return models.Token{}, invalidEscapeError(
 					fmt.Sprintf("invalid escape sequence: %v", err),
 					models.Location{Line: r.pos.Line, Column: r.pos.Column},
 					string(r.input),
@@ -156,4 +156,11 @@ func (r *StringLiteralReader) handleUnicodeEscape(buf *bytes.Buffer) error {
 	r.pos.Index += 4
 	r.pos.Column += 4
 	return nil
+}
+
+// invalidEscapeError reports a bad backslash escape inside a string literal. It is
+// a lexical problem, so it carries a tokenizer-family (E1xxx) code like the other
+// errors raised while scanning a literal.
+func invalidEscapeError(description string, location models.Location, sql string) *errors.Error {
+	return errors.NewError(errors.ErrCodeUnexpectedChar, description, location).WithContext(sql, 1)
 }
